@@ -2,7 +2,7 @@
 
 use crate::error::JsError;
 use crate::gc::Gc;
-use crate::interpreter::Interpreter;
+use crate::interpreter::{Interpreter, NativeStackLimit};
 use crate::prelude::*;
 use crate::value::{
     CheapClone, ExoticObject, Guarded, JsObject, JsObjectRef, JsString, JsValue, PropertyKey,
@@ -1614,13 +1614,20 @@ pub fn array_flat(
 
     let depth = args.first().map(|v| v.to_number() as i32).unwrap_or(1);
 
-    fn flatten(arr: &JsObjectRef, depth: i32) -> Vec<JsValue> {
+    fn flatten(
+        arr: &JsObjectRef,
+        depth: i32,
+        limit: NativeStackLimit,
+    ) -> Result<Vec<JsValue>, JsError> {
+        // One native frame per nesting level: arrays nested too deeply (or containing
+        // themselves) are an error, not a native stack overflow
+        limit.check()?;
         let elements: Vec<JsValue> = {
             let arr_ref = arr.borrow();
             if let Some(elements) = arr_ref.array_elements() {
                 elements.to_vec()
             } else {
-                return vec![];
+                return Ok(vec![]);
             }
         };
 
@@ -1630,15 +1637,15 @@ pub fn array_flat(
                 && let JsValue::Object(ref inner) = elem
                 && inner.borrow().is_array()
             {
-                result.extend(flatten(inner, depth - 1));
+                result.extend(flatten(inner, depth - 1, limit)?);
                 continue;
             }
             result.push(elem);
         }
-        result
+        Ok(result)
     }
 
-    let elements = flatten(&arr, depth);
+    let elements = flatten(&arr, depth, interp.native_stack_limit())?;
     let guard = interp.heap.create_guard();
     let arr = interp.create_array_from(&guard, elements);
     Ok(Guarded::with_guard(JsValue::Object(arr), guard))
